@@ -20,7 +20,7 @@ RULE = ('case = one history (sequence of encrypt/protect operations in one proce
         'distinct = distinct history descriptors; the evidence also counts distinct secret values observed')
 ASSUMPTIONS = ['unpredictability of os.urandom / OpenSSL RNG is not decidable by monitoring: freshness, size and provenance are observed',
                'ECDH ephemeral keys and RSA padding come from OpenSSL and are visible only through outputs']
-MIN_COUNTERS = {'quick': {'operations': 180, 'session_keys_checked': 120, 'prefixes_checked': 120, 'salts_checked': 40, 'ivs_checked': 15, 'ephemerals_checked': 60, 'urandom_calls_seen': 300, 'reprotect_operations': 5, 'chained_recipient_operations': 10},
+MIN_COUNTERS = {'quick': {'operations': 180, 'session_keys_checked': 120, 'prefixes_checked': 120, 'salts_checked': 40, 'ivs_checked': 15, 'ephemerals_checked': 60, 'urandom_calls_seen': 300, 'reprotect_operations': 5, 'chained_recipient_operations': 10, 'encryptions_with_long_lived_key_object': 60},
                 'thorough': {'operations': 3000}}
 BUDGET = {'quick': (600, 1500), 'thorough': (1800, 3600)}
 TECHNIQUE = 'runtime monitoring: history monitor with interposed os.urandom (recording proxy) + reference extraction of secrets from outputs; freshness/size/provenance invariants'
@@ -88,6 +88,7 @@ def run_case(ctx, d):
     rec = Recorder()
     seen = {'session_key': {}, 'prefix': {}, 'salt': {}, 'iv': {}, 'ephemeral': {}}
     persistent = {}
+    pubs = {}
     os.urandom = rec
     try:
         with warnings.catch_warnings():
@@ -135,8 +136,17 @@ def run_case(ctx, d):
                 secrets = []
                 if op['op'] == 'enc_key':
                     k, m = encwork.recipient(op['rc'])
+                    # two out of three encryptions use one long-lived public key object per recipient (as an application holding a
+                    # recipient's key does), the others a freshly derived one
+                    if i % 3:
+                        if op['rc'] not in pubs:
+                            pubs[op['rc']] = k.pubkey if len(pubs) % 2 else pgpy.PGPKey.from_blob(bytes(k.pubkey))[0]
+                        pubobj = pubs[op['rc']]
+                        ctx.count('encryptions_with_long_lived_key_object')
+                    else:
+                        pubobj = k.pubkey
                     rec.start()
-                    enc = k.pubkey.encrypt(msg, cipher=calg)
+                    enc = pubobj.encrypt(msg, cipher=calg)
                     secrets = [('key', m)]
                 elif op['op'] == 'enc_pass':
                     rec.start()
@@ -149,7 +159,7 @@ def run_case(ctx, d):
                     enc = msg
                     for st in op['steps']:
                         if st[0] == 'key':
-                            enc = ks[st[1]][0].pubkey.encrypt(enc, cipher=calg, sessionkey=sk0)
+                            enc = pubs.setdefault(st[1], ks[st[1]][0].pubkey).encrypt(enc, cipher=calg, sessionkey=sk0)
                             secrets.append(('key', ks[st[1]][1]))
                         else:
                             enc = enc.encrypt(PWS[st[1]], cipher=calg, sessionkey=sk0)
